@@ -5,7 +5,7 @@
    any list of source tasks whose counts sum to the requested number NREQ, and ANY schedule
    (list of labels).  fixed_loop = true is the worker loop as repaired; false the pinned commit. *)
 From Coq Require Import List Arith Bool Permutation.
-From CMI Require Import Cxx.C01_Defs Cxx.C01_Proofs Cxx.C01_Gen Cxx.C01_GenProofs.
+From CMI Require Import Cxx.C01_Defs Cxx.C01_Proofs Cxx.C01_Gen Cxx.C01_GenProofs Cxx.C01_SourceDefs Cxx.C01_SourceProofs.
 Import ListNotations.
 
 (* In every reachable state every packet created so far is in exactly one place -- an active
@@ -80,3 +80,49 @@ Theorem C01_source_termination_test_read_order :
   gen_translated = true /\ gen_reads_ion = [0; 1] /\ gen_reads_rhd = [0; 1].
 Proof. exact (conj gen_translated_ok gen_reads_ok). Qed.
 Print Assumptions C01_source_termination_test_read_order.
+
+(* ---- source side: the requested number is split exactly (C01_SourceDefs.v models DistributedPhotonSource and the
+   "photon source tasks" loops; inputs: per source (floor(N*weight), number of subgrid copies + 1) and the random draws
+   that place the remainder packets) ---- *)
+(* constructor: one entry per source copy; the entries add up to the floors plus the remainder packets *)
+Theorem C01_source_totals_sum : forall ss draws,
+  Forall (fun s => 1 <= snd s) ss -> Forall (fun d => d < length ss) draws ->
+  sum (totals ss draws) = sum (map fst ss) + length draws /\ length (totals ss draws) = sum (map snd ss).
+Proof. exact totals_sum. Qed.
+Print Assumptions C01_source_totals_sum.
+
+(* ... hence exactly the requested number N, provided the floors do not exceed N (otherwise the size_t subtraction
+   that computes the number of remainder packets wraps: C01_source_overhead_wraps) *)
+Theorem C01_source_totals_exact : forall N ss draws k,
+  Forall (fun s => 1 <= snd s) ss -> Forall (fun d => d < length ss) draws ->
+  num_overhead N ss = Some k -> length draws = k -> sum (totals ss draws) = N.
+Proof. exact totals_exact. Qed.
+Print Assumptions C01_source_totals_exact.
+
+Theorem C01_source_overhead_wraps : forall N ss, N < sum (map fst ss) -> num_overhead N ss = None.
+Proof. exact num_overhead_wraps. Qed.
+Print Assumptions C01_source_overhead_wraps.
+
+(* the round-robin batch loop terminates and hands out every packet of every source copy exactly once, in batches of
+   1..cap packets (final number_done vector = totals) *)
+Theorem C01_source_batches : forall cap, 1 <= cap -> forall fuel dn tot done_sum,
+  Forall2 le dn tot -> done_sum = sum dn -> sum tot - sum dn < fuel ->
+  exists ts, rr_loop fuel cap (sum tot) done_sum dn tot = Some (ts, tot, sum tot)
+    /\ sum (map snd ts) = sum tot - sum dn /\ sizes_ok cap ts.
+Proof. exact rr_loop_spec. Qed.
+Print Assumptions C01_source_batches.
+
+Theorem C01_continuous_batches : forall n b nblocks, 1 <= b -> 1 <= nblocks ->
+  sum (map snd (cont_tasks n b nblocks)) = n /\ sizes_ok b (cont_tasks n b nblocks)
+  /\ Forall (fun e => fst e < nblocks) (cont_tasks n b nblocks).
+Proof. exact cont_tasks_spec. Qed.
+Print Assumptions C01_continuous_batches.
+
+(* the source tasks queued for one iteration carry exactly the requested number of packets: this is the premise
+   (counts of the source tasks sum to NREQ) of the invariant theorems above *)
+Theorem C01_source_tasks_carry_request : forall cap ndiscrete ncont nblocks tot,
+  1 <= cap -> 1 <= nblocks -> sum tot = ndiscrete ->
+  exists l, all_source_sizes cap ndiscrete ncont nblocks tot = Some l
+    /\ sum l = ndiscrete + ncont /\ Forall (fun k => 1 <= k <= cap) l.
+Proof. exact all_source_sizes_spec. Qed.
+Print Assumptions C01_source_tasks_carry_request.
